@@ -101,6 +101,9 @@ def tie_real_sqlite(rep):
     import shutil, sqlite3, tempfile
     from engine.core import Ob, HOLDS, CEX
     from pony.orm import Database, PrimaryKey, Required, db_session, select, core
+    from pony.orm.dbproviders import sqlite as _ps
+    _ps.sqlite = sqlite3                      # classify()/explain() may have left the recording driver (with armed faults) in place
+    core.local.db2cache.clear(); core.local.db_session = None; core.local.db_context_counter = 0
 
     class Plan(object):
         k = n = 0
